@@ -179,9 +179,19 @@ class DecFileParser:
             Make sure you understand the consequences of ignoring
             charge conjugate decays - you won't have a complete picture otherwise!
         """
+        try:
+            self._parse(include_ccdecays)
+        except BaseException:
+            # A parsing that did not get to its end has not parsed the file:
+            # no half-processed decay tables are left behind to answer queries with
+            self._parsed_dec_file = None
+            self._parsed_decays = None
+            raise
+
+    def _parse(self, include_ccdecays: bool) -> None:
         # Has a file been parsed already?
         if self._parsed_decays is not None:
-            warnings.warn("Input file being re-parsed ...", stacklevel=2)
+            warnings.warn("Input file being re-parsed ...", stacklevel=3)
 
         # Override the parsing settings for charge conjugate decays
         self._include_ccdecays = include_ccdecays or False
